@@ -26,6 +26,14 @@ def _flag_ref(n, tracked):
     n = strip(n)
     if n is not None and n["k"] == "Ref" and n.get("d") in tracked:
         return n["d"]
+    # an integral member of *this (tracked under its qualified name)
+    if n is not None and n["k"] == "Member" and n.get("q") in tracked and n.get("ch") and strip(n["ch"][0]) is not None and \
+            strip(n["ch"][0])["k"] in ("This", "Cast"):
+        b = strip(n["ch"][0])
+        while b is not None and b["k"] == "Cast" and b.get("ch"):
+            b = strip(b["ch"][0])
+        if b is not None and b["k"] == "This":
+            return n["q"]
     return None
 
 
@@ -127,6 +135,15 @@ def flags_of(f):
             x = strip(n["ch"][0])
             if x is not None and x["k"] == "Ref":
                 bad.add(x.get("d"))
+    # integral members of *this that this function assigns a constant to and tests
+    for n in f.walk():
+        if n["k"] == "Assign" and n.get("op", "=") == "=":
+            l = strip(n["ch"][0])
+            if l is not None and l["k"] == "Member" and l.get("q") and l.get("ch") and strip(l["ch"][0]) is not None and strip(l["ch"][0])["k"] == "This" and \
+                    _k(n["ch"][1]) is not None:
+                t = f.ty(l)
+                if "*" not in t and "class " not in t and "struct " not in t and "std::" not in t:
+                    cands.add(l["q"])
     return cands - bad
 
 
@@ -156,6 +173,13 @@ def apply_env(f, node, env, tracked):
         d = _flag_ref(node["ch"][0], tracked)
         if d is not None:
             env.pop(d, None)
+    elif k == "Call" and node.get("member") and node.get("ch") and not (node.get("fk") or "").endswith("const"):
+        r = strip(node["ch"][0])
+        while r is not None and r["k"] == "Cast" and r.get("ch"):
+            r = strip(r["ch"][0])
+        if r is not None and r["k"] == "This":
+            for q in [q for q in env if isinstance(q, str) and "::" in q and not q.startswith("L")]:
+                env.pop(q, None)
     elif k == "Var" and node.get("d") in tracked:
         if node.get("ch") and node["ch"][0] is not None:
             v = _k(node["ch"][0])
